@@ -363,3 +363,9 @@ func RemoveFiles(path string) {
 	os.Remove(path + ".db")
 	os.Remove(path + ".log")
 }
+
+func newCtx(d *DB, txn *access.Transaction) *executors.ExecutorContext {
+	return executors.NewExecutorContext(d.Cat, d.BPM, txn)
+}
+
+func txnAborted(txn *access.Transaction) bool { return txn.GetState() == access.ABORTED }
